@@ -2,7 +2,7 @@
    Only ExtrOcamlBasic: bool, option, list, prod, unit, sumbool become OCaml types;
    nat, positive, N stay the Coq datatypes.  No Extract Constant. *)
 From Coq Require Import List NArith Extraction ExtrOcamlBasic.
-From Truc.Model Require Import Layout Builder Observe.
+From Truc.Model Require Import Layout Builder Observe VecConv VecScript.
 Extraction Language OCaml.
 Definition n_to_uint (n : N) := N.to_uint n.
-Extraction "model.ml" observe n_to_uint N.of_nat N.succ.
+Extraction "model.ml" observe n_to_uint N.of_nat N.succ observe_vec.
